@@ -157,7 +157,8 @@ class Naive:
         return True
 
 
-WS = [" ", " ", " ", "  ", "\t", "\n", " \t ", "\r\n", "\x0b", "\x1f", "\x85", "\xa0"]
+WS = [" ", " ", " ", "  ", "\t", "\n", " \t ", "\r\n", "\x0b", "\x1f", "\x85", "\xa0", "\u1680", "\u2003", "\u2029",
+      "\u3000"]
 
 
 def render_parents(rng, ps, tuple_bias=0.35):
@@ -668,13 +669,75 @@ class C17(Check):
             "<=2-subset of 6 names. Non-trivial = at least one call; distinct by JSON text.")
     assumptions = [
         "identifiers of normalising hierarchies are ASCII (model's lower = Char.toLower; Python's str.lower agrees there)",
-        "whitespace in parent strings is drawn from ASCII whitespace, U+001C-1F, U+0085, U+00A0 (model's isSpace)",
+        "str.split() splits exactly on the model's spaceCodes (pinned against the live code for every code point "
+        "< U+3001 by c17_pins; no code point above is generated)",
         "data values are integers; identifiers are strings (non-string identifiers of MultiHierarchy are not generated)",
         "atomicity is true of the pure model by construction; it is checked on the real code only (oracle: full query "
         "set and a snapshot of _hier/_loer/_data after every rejected call equal those before it)",
     ]
     trusted_base = ["hand-written model lean/Verif/C17/Model.lean, tied to delphin.hierarchy by the correspondence run",
                     "normaliser is a parameter of the model and of every theorem (no assumption on it is used)"]
+
+    # ---- pins: constants, defaults and shape facts of the live code that the model mirrors
+    def tables(self):
+        import types
+
+        from .common import tables as TB
+        lit = TB.lean_strlit
+        M = dh.MultiHierarchy
+        TH = dtfs.TypeHierarchy
+
+        def consts(fn):
+            """non-message constants (nested code objects included); docstrings and message texts dropped"""
+            out = []
+
+            def walk(code):
+                for c in code.co_consts:
+                    if isinstance(c, types.CodeType):
+                        walk(c)
+                    elif c is None or c == fn.__doc__:
+                        continue
+                    elif isinstance(c, str) and (" " in c or "{}" in c):
+                        continue
+                    else:
+                        out.append(repr(c))
+            walk(fn.__code__)
+            return out
+
+        def names(fn):
+            return " ".join(fn.__code__.co_names)
+        fns = [("__init__", M.__init__), ("update", M.update), ("validate_update", M.validate_update),
+               ("_normalize_update", dh._normalize_update), ("_get_eligible", dh._get_eligible),
+               ("_validate_parentage", dh._validate_parentage), ("_ancestors", dh._ancestors),
+               ("__len__", M.__len__), ("compatible", M.compatible), ("subsumes", M.subsumes),
+               ("TypeHierarchy.__init__", TH.__init__), ("_new_hierarchy", dsemi._new_hierarchy)]
+        defaults = ["%s:%r:%r" % (n, f.__defaults__, f.__kwdefaults__) for n, f in fns]
+        cons = ["%s:%s" % (n, ",".join(consts(f))) for n, f in fns]
+        nms = ["%s:%s" % (n, names(f)) for n, f in fns
+               if n in ("_normalize_update", "_get_eligible", "_validate_parentage", "_ancestors",
+                        "TypeHierarchy.__init__", "_new_hierarchy")]
+        # shape facts read off live objects
+        ident = lambda x: x  # noqa: E731
+        ws = [c for c in range(0x3001)
+              if dh._normalize_update(ident, {"k": "a" + chr(c) + "b"}, None)[0]["k"] != ("a" + chr(c) + "b",)]
+        hm, ht, hs = M("ToP"), TH("ToP"), dsemi._new_hierarchy()
+
+        def ascii_image(h):
+            return "[" + ", ".join("[" + ", ".join(str(ord(x)) for x in h._norm(chr(c))) + "]" for c in range(128)) + "]"
+        fresh = M("t")
+        return [
+            "def c17Defaults : List String := [%s]" % ", ".join(lit(x) for x in defaults),
+            "def c17Consts : List String := [%s]" % ", ".join(lit(x) for x in cons),
+            "def c17Names : List String := [%s]" % ", ".join(lit(x) for x in nms),
+            "def c17SplitWhitespace : List Nat := [%s]" % ", ".join(str(c) for c in ws),
+            "def c17MultiNormAscii : List (List Nat) := %s" % ascii_image(hm),
+            "def c17TypeNormAscii : List (List Nat) := %s" % ascii_image(ht),
+            "def c17SemiNormAscii : List (List Nat) := %s" % ascii_image(hs),
+            "def c17NormIdentity : List Bool := [%s]" % ", ".join(
+                "true" if b else "false" for b in (hm._norm is dh._norm_id, ht._norm is str.lower, hs._norm is str.lower)),
+            "def c17Tops : List String := [%s]" % ", ".join(lit(x) for x in (hm.top, ht.top, hs.top, dsemi.TOP_TYPE)),
+            "def c17NewState : String := %s" % lit(repr((fresh._hier, fresh._loer, fresh._data))),
+        ]
 
     # ---- cases
     def cases(self, rng, tier, n):
